@@ -706,6 +706,7 @@ mod os {
     use std::ffi::OsString;
     use std::fs::File;
     use std::io::{self, Read, Write};
+    use std::mem;
     use std::os::unix::io::AsRawFd;
     use std::time::{Duration, Instant};
 
@@ -873,29 +874,41 @@ mod os {
                 chdir()?;
             }
 
+            // A file passed by the caller may itself sit on descriptor 0-2
+            // (the parent runs with a standard stream closed).  Move such
+            // a file out of the way first unless it is already where it
+            // belongs, so that installing one stream cannot overwrite a file
+            // that another stream still needs.
             let (stdin, stdout, stderr) = child_ends;
-            if let Some(stdin) = stdin {
-                if stdin.as_raw_fd() != 0 {
-                    posix::dup2(stdin.as_raw_fd(), 0)?;
-                } else {
-                    // already in place: it only has to survive the exec
-                    posix::fcntl(0, posix::F_SETFD, Some(0))?;
+            let ends = [(stdin, 0), (stdout, 1), (stderr, 2)];
+            let mut fds = [-1; 3];
+            for (i, (end, target)) in ends.iter().enumerate() {
+                if let Some(end) = end {
+                    let fd = end.as_raw_fd();
+                    fds[i] = if fd <= 2 && fd != *target {
+                        posix::fcntl(fd, posix::F_DUPFD_CLOEXEC, Some(3))?
+                    } else {
+                        fd
+                    };
                 }
             }
-            if let Some(stdout) = stdout {
-                if stdout.as_raw_fd() != 1 {
-                    posix::dup2(stdout.as_raw_fd(), 1)?;
-                } else {
-                    // already in place: it only has to survive the exec
-                    posix::fcntl(1, posix::F_SETFD, Some(0))?;
+            for (i, (end, target)) in ends.iter().enumerate() {
+                if end.is_some() {
+                    if fds[i] != *target {
+                        posix::dup2(fds[i], *target)?;
+                    } else {
+                        // already in place: it only has to survive the exec
+                        posix::fcntl(*target, posix::F_SETFD, Some(0))?;
+                    }
                 }
             }
-            if let Some(stderr) = stderr {
-                if stderr.as_raw_fd() != 2 {
-                    posix::dup2(stderr.as_raw_fd(), 2)?;
-                } else {
-                    // already in place: it only has to survive the exec
-                    posix::fcntl(2, posix::F_SETFD, Some(0))?;
+            for (end, _) in ends {
+                // From here on 0-2 are the child's own streams: a file that
+                // sat on one of them must not close it when it is dropped.
+                if let Some(end) = end {
+                    if end.as_raw_fd() <= 2 {
+                        mem::forget(end);
+                    }
                 }
             }
             posix::reset_sigpipe()?;
